@@ -79,6 +79,8 @@ func builtinAxioms() []*Term {
 		Forall([]*Term{x}, Eq(App("unbox_int", SInt, App("box_int", SInt, x)), x), App("box_int", SInt, x)),
 		Forall([]*Term{y}, Eq(App("unbox_seq", SSeq, App("box_seq", SInt, y)), y), App("box_seq", SInt, y)),
 		Ge(alloc0(), IntLit(1)),
+		// a concatenation determines its second part once the first is known (theorem of sequences)
+		Forall([]*Term{s, t}, Eq(App("seq_drop", SSeq, App("seq_cat", SSeq, s, t), seqLen(s)), t), App("seq_cat", SSeq, s, t)),
 	}
 	// sync.Map identities: smid(object, field) is injective
 	r := BoundVar("ax_r", SInt)
